@@ -361,6 +361,27 @@ func (ex *Exec) frameCtx(st *State, fr *Frame) *SpecCtx {
 			}
 		}
 	}
+	// renamed locals: a name recorded for this function that no longer exists is bound to the local that now
+	// stands at its recorded position (only when the number of locals is unchanged)
+	if fr.id == 0 && ex.P.Locals != nil {
+		if rec := ex.P.Locals[ex.spec.Key]; rec != nil {
+			cur := localNames(fr.fn)
+			if len(cur) == len(rec) {
+				for i, old := range rec {
+					if old == cur[i] {
+						continue
+					}
+					if _, exists := c.names[old]; exists {
+						continue
+					}
+					if v, ok := c.names[cur[i]]; ok {
+						c.names[old] = v
+						ex.noteOnce("local " + cur[i] + " stands for " + old + " of the contract (renamed local matched by position)")
+					}
+				}
+			}
+		}
+	}
 	if fr.id == 0 {
 		for n, v := range ex.entryVals {
 			c.names[n+"0"] = &SV{V: v, T: ex.paramTypes[n]}
@@ -1164,4 +1185,13 @@ func (ex *Exec) ghostAssign(st *State, c *SpecCtx, ga *GhostAssign) {
 		}
 		ex.storeLoc(st, loc, v)
 	})
+}
+
+func (ex *Exec) noteOnce(w string) {
+	for _, x := range ex.warnings {
+		if x == w {
+			return
+		}
+	}
+	ex.warnings = append(ex.warnings, w)
 }
